@@ -12,6 +12,7 @@ mod proj;
 mod gen;
 mod names;
 mod render;
+mod shrink;
 mod surface;
 
 use proptest::strategy::{Strategy, ValueTree};
@@ -54,7 +55,7 @@ fn main() {
             } else {
                 fam_msg(seed, n, &gen::GenOpts::default())
             };
-            let spec = corpus::CorpusSpec { name: "dev", programs: &progs, alias: None, extra_files: vec![] };
+            let spec = corpus::CorpusSpec { name: "dev", programs: &progs, alias: None, extra_files: vec![], bin_skip: vec![] };
             let dir = corpus::write_corpus(&spec, nlibs);
             let t0 = std::time::Instant::now();
             let out = corpus::cargo_build(&dir, &[], "corpus");
@@ -75,7 +76,7 @@ fn main() {
                 }
             }
             let progs = fam_msg(1, 2, &gen::GenOpts::default());
-            let spec = corpus::CorpusSpec { name: "warm", programs: &progs, alias: None, extra_files: vec![] };
+            let spec = corpus::CorpusSpec { name: "warm", programs: &progs, alias: None, extra_files: vec![], bin_skip: vec![] };
             let dir = corpus::write_corpus(&spec, 1);
             let out = corpus::cargo_build(&dir, &[], "corpus");
             if !out.ok {
